@@ -34,7 +34,7 @@ fn op_name(op: &Op) -> String {
             s
         }
         Op::Return { .. } => "Return".into(),
-        Op::Take { .. } => "Take".into(),
+        Op::Take { detach_panics, .. } => format!("Take{}", if *detach_panics { "!detach_panics" } else { "" }),
         Op::Use { .. } => "Use".into(),
         Op::Resize { n } => format!("Resize({n})"),
         Op::Close => "Close".into(),
@@ -396,7 +396,7 @@ pub fn c03_grid() -> Vec<MScenario> {
                             for _ in 0..max_size {
                                 prefix.push(plain);
                             }
-                            prefix.push(Op::Take { slot: 0 });
+                            prefix.push(Op::Take { slot: 0, detach_panics: false });
                             for _ in 1..max_size {
                                 prefix.push(Op::Return { slot: 0 });
                             }
